@@ -4,6 +4,8 @@ import (
 	"go/constant"
 	"go/token"
 	"go/types"
+	"golang.org/x/tools/go/ssa/ssautil"
+	"sync"
 
 	"golang.org/x/tools/go/ssa"
 )
@@ -240,6 +242,12 @@ func errValueNil(v ssa.Value, at *ssa.BasicBlock, seen map[ssa.Value]bool) Tri {
 		return No
 	case *ssa.MakeInterface:
 		return No
+	case *ssa.UnOp:
+		// a sentinel error: a package-level variable assigned once, in the package initialiser, from
+		// errors.New / fmt.Errorf (`var ErrNotFound = errors.New(..)`)
+		if g, ok := x.X.(*ssa.Global); ok && x.Op == token.MUL && isSentinelError(g) {
+			return No
+		}
 	case *ssa.Call:
 		if f := CalleeFunc(x); f != nil && f.Pkg() != nil {
 			switch f.Pkg().Path() + "." + f.Name() {
@@ -725,4 +733,60 @@ func ConstSets(v ssa.Value) map[*ssa.BasicBlock]map[int64]bool {
 		}
 	}
 	return out
+}
+
+var (
+	sentinelMu    sync.Mutex
+	sentinelCache = map[*ssa.Program]map[*ssa.Global]bool{}
+)
+
+// isSentinelError: g is stored to exactly once in the whole program, by its package's initialiser, and the
+// value stored is the result of errors.New or fmt.Errorf.
+func isSentinelError(g *ssa.Global) bool {
+	if g == nil || g.Pkg == nil {
+		return false
+	}
+	prog := g.Pkg.Prog
+	sentinelMu.Lock()
+	defer sentinelMu.Unlock()
+	m, ok := sentinelCache[prog]
+	if !ok {
+		m = map[*ssa.Global]bool{}
+		stores := map[*ssa.Global]int{}
+		good := map[*ssa.Global]bool{}
+		for fn := range ssautil.AllFunctions(prog) {
+			for _, b := range fn.Blocks {
+				for _, in := range b.Instrs {
+					st, ok := in.(*ssa.Store)
+					if !ok {
+						continue
+					}
+					gg, ok := st.Addr.(*ssa.Global)
+					if !ok {
+						continue
+					}
+					stores[gg]++
+					v := st.Val
+					if mi, ok := v.(*ssa.MakeInterface); ok {
+						v = mi.X
+					}
+					if call, ok := v.(*ssa.Call); ok && fn.Name() == "init" {
+						if f := CalleeFunc(call); f != nil && f.Pkg() != nil {
+							switch f.Pkg().Path() + "." + f.Name() {
+							case "errors.New", "fmt.Errorf":
+								good[gg] = true
+							}
+						}
+					}
+				}
+			}
+		}
+		for gg := range good {
+			if stores[gg] == 1 {
+				m[gg] = true
+			}
+		}
+		sentinelCache[prog] = m
+	}
+	return m[g]
 }
